@@ -5,6 +5,14 @@ returns a step, the real code applies the pair and the merged step; the model's 
 (lean/PM/Step.lean) is evaluated on the same pair and, when it merges too, its merged step is
 applied by the real code and must give the same document.
 Search: equality of the two results, success of the merged step, equal size delta.
+
+Guard of `merge_succeeds_replace` (lean/Props/C16.lean): `compatible_content` is transitive on the schema's node
+types (`compatTransB`, lean/PM/UndoGuard.lean).  Tie: for every schema used, the guard evaluated with the real
+`NodeType.compatible_content` is compared with the model's value (driver op `compatTrans`).  Relational oracle:
+guard true and the pair applies  =>  the merged step applies in the real code.  Every schema of the bundled family
+(the property's quantifier) has to satisfy the guard; in a random schema that does not, a merged replace step that is
+refused although the pair applied is counted (`merged-fails:guard-false`), not reported — the statement is false there
+(`merge_needs_guard`, same file).
 """
 from prosemirror.model import Fragment, Slice
 from prosemirror.transform import AddMarkStep, RemoveMarkStep, ReplaceStep
@@ -18,6 +26,14 @@ def apply_doc(step, doc):
     if st == "ok" and res.doc is not None:
         return res.doc
     return None
+
+
+def compat_transitive(schema):
+    """`compatible_content` is transitive on the node types of the schema (real code)"""
+    types = list(schema.nodes.values())
+    rel = {(a.name, b.name): bool(a.compatible_content(b)) for a in types for b in types}
+    return all(not (rel[a.name, b.name] and rel[b.name, c.name]) or rel[a.name, c.name]
+               for a in types for b in types for c in types)
 
 
 def adjacent_pairs(rng, info, d, docs):
@@ -105,8 +121,16 @@ def run(ctx):
     core.lean_phase(ctx)
     rng = ctx.rng
     reqs, metas = [], []
+    greqs, gmetas = [], []
+    guard_of = {}
 
     def flush():
+        gouts = ctx.driver.run(greqs) if greqs else []
+        for (name, impl), out in zip(gmetas, gouts):
+            ctx.count("guard:model_requests")
+            if out.get("ok") is not impl:
+                ctx.mismatch("compatTrans", {"schema": name}, impl, out)
+        del greqs[:], gmetas[:]
         outs = ctx.driver.run(reqs) if reqs else []
         for req, (replay, info, d, d2, impl_merged), out in zip(reqs, metas, outs):
             ctx.count("model_requests")
@@ -147,7 +171,9 @@ def run(ctx):
             if merged is not None:
                 replay["merged"] = merged.to_json()
                 dm = apply_doc(merged, d)
-                if dm is None:
+                if dm is None and isinstance(s1, ReplaceStep) and not guard_of[id(info)]:
+                    ctx.count("merged-fails:guard-false")      # outside the guard of merge_succeeds_replace
+                elif dm is None:
                     ctx.violation("merged-fails", "the merged step does not apply although the two-step sequence does", replay)
                 elif not dm.eq(d2):
                     ctx.violation("merged-differs", "the merged step gives a different document than the two steps", dict(replay, two=d2.to_json(), one=dm.to_json()))
@@ -164,6 +190,14 @@ def run(ctx):
         info = fam[si % len(fam)] if si < len(fam) or rng.random() < 0.5 else schemas.random_schema(rng)
         schema = info.schema
         ctx.driver.add_schema(info)
+        if id(info) not in guard_of:
+            guard_of[id(info)] = compat_transitive(schema)
+            is_fam = any(info is x for x in fam)
+            ctx.count("guard:" + ("family" if is_fam else "random") + (":true" if guard_of[id(info)] else ":false"))
+            if is_fam and not guard_of[id(info)]:
+                ctx.mismatch("compatTrans", {"schema": info.name}, False, "every schema of the bundled family satisfies the guard")
+            greqs.append({"op": "compatTrans", "s": info.lean_id})
+            gmetas.append((info.name, guard_of[id(info)]))
         docs = [x for x in (ctx.guard(lambda: gen.gen_doc(rng, schema, budget=rng.choice([6, 12, 25])), "gen_doc")
                             for _ in range(ctx.budget(5, 10))) if x is not None]
         docs += [x for x in (ctx.guard(lambda: gen.gen_marky_doc(rng, schema), "gen_marky_doc") for _ in range(ctx.budget(2, 4))) if x is not None]
